@@ -183,7 +183,9 @@ def power_method_opnorm(op, xstart=None, maxiter=100, rtol=1e-05, atol=1e-08,
     where ``a`` and ``b`` are consecutive iterates.
     """
     if maxiter is None:
-        maxiter = np.iinfo(int).max
+        # Largest even number, the iteration count for non-self-adjoint
+        # operators must be even
+        maxiter = np.iinfo(int).max - 1
 
     maxiter, maxiter_in = int(maxiter), maxiter
     if maxiter <= 0:
